@@ -114,3 +114,19 @@ func H_C16_dn() {
 	vCheck(vStrEq(got, want), "dn/domain-is-dot-join-of-DC-values")
 	vCover("end")
 }
+
+// History independence: a truncated (rejected) SID handed to the parser first must not influence the text of the next,
+// well-formed one.
+func H_C16_sid_after_rejected_input() {
+	bad := buildSID(3, uint64(vU8("bad.auth")), []uint32{uint32(vU8("bad.sub"))}) // announces 3 sub-authorities, carries 1
+	first := ParseSIDFromBytes(bad)
+	vCheck(first == "", "sid/truncated-input-rejected")
+	auth := uint64(vU8("auth"))
+	vAssume(auth < 10)
+	sub := uint32(vU8("sub"))
+	vAssume(sub < 10)
+	got := ParseSIDFromBytes(buildSID(1, auth, []uint32{sub}))
+	want := "S-1-" + string([]byte{'0' + byte(auth)}) + "-" + string([]byte{'0' + byte(sub)})
+	vCheck(vStrEq(got, want), "sid/text-independent-of-earlier-calls")
+	vCover("end")
+}
